@@ -289,3 +289,28 @@ func (g *Grammar) RenameRules(scheme int) {
 		}
 	}
 }
+
+// IndirectEmpty returns a copy of g in which every `@empty` alternative of a
+// rule r is replaced by a reference to a new rule whose only alternative is
+// `@empty`: r keeps its language and stays nullable, but no longer has a
+// literally empty production (it is nullable only through another rule).
+// Returns nil when g has no `@empty` alternative.
+func (g *Grammar) IndirectEmpty() *Grammar {
+	c := g.Clone()
+	n := len(c.Rules)
+	found := false
+	for ri := 0; ri < n; ri++ {
+		for ai := range c.Rules[ri].Alts {
+			if len(c.Rules[ri].Alts[ai].Terms) == 0 {
+				found = true
+				name := fmt.Sprintf("e%d", len(c.Rules)-n+1)
+				c.Rules[ri].Alts[ai].Terms = []Term{{X: Sym{K: N, I: len(c.Rules)}}}
+				c.Rules = append(c.Rules, Rule{Name: name, Alts: []Alt{{}}})
+			}
+		}
+	}
+	if !found {
+		return nil
+	}
+	return c
+}
